@@ -30,6 +30,12 @@ fn boundary_chain() -> Vec<BlockSpec> {
     t.witness = Some(vec![(0..300).map(|i| vec![i as u8; (i % 5) as usize]).collect()]);
     txs.push(t);
     txs.push(TxSpec::new(vec![TxIn::new(idn(), 0, vec![0x51])], vec![TxOut::new(8, vec![0x51])]));
+    // the same payee paid several times by one transaction: adjacent and non-adjacent outputs (and inputs) with identical
+    // scripts and different values -- every row keeps its own value, index and script
+    txs.push(TxSpec::new(vec![TxIn::new(idn(), 0, vec![0x51, 0x52]), TxIn::new(idn(), 1, vec![0x51, 0x52]), TxIn::new(idn(), 1, vec![0x51, 0x52])],
+        vec![TxOut::new(1000, p2pkh_script(&[0xa1; 20])), TxOut::new(2500, p2pkh_script(&[0xa1; 20])), TxOut::new(777, p2pkh_script(&[0xb2; 20])),
+             TxOut::new(1, p2pkh_script(&[0xa1; 20])), TxOut::new(1, p2pkh_script(&[0xa1; 20])), TxOut::new(0, vec![]), TxOut::new(9, vec![]),
+             TxOut::new(3, vec![0x6a, 0x01, 0x41]), TxOut::new(4, vec![0x6a, 0x01, 0x41])]));
     blocks.push(txs);
     // block 4: more than 252 transactions (tx count needs a 3-byte CompactSize)
     blocks.push((0..260).map(|i| TxSpec::new(vec![TxIn::new(idn(), i, vec![])], vec![TxOut::new(i as u64, vec![0x51])])).collect());
